@@ -25,12 +25,16 @@ var headerPool = sync.Pool{
 
 // AcquireHeaderField gets HeaderField from the pool.
 func AcquireHeaderField() *HeaderField {
-	return headerPool.Get().(*HeaderField)
+	hf := headerPool.Get().(*HeaderField)
+	verifPoolGet(2, hf)
+
+	return hf
 }
 
 // ReleaseHeaderField puts HeaderField to the pool.
 func ReleaseHeaderField(hf *HeaderField) {
 	hf.Reset()
+	verifPoolPut(2, hf)
 	headerPool.Put(hf)
 }
 
